@@ -524,6 +524,22 @@ theorem splitbrain_aborts (cfg : Cfg) (i : In) (ps : List Pos)
     have := splitbrain_no_promo cfg i ps hpos hsb s hs
     refine ⟨?_, ?_, ?_⟩ <;> intros <;> intro he <;> rw [he] at this <;> cases this
 
+/-- counterexample to `C01.splitbrain_aborts` as stated: one frozen host `b`, which is also the host to switch
+from, with an ill-formed position (the empty interval `[5,3)`) -/
+def cxIn : In :=
+  { cs := [("a", { pingOk := false }), ("b", { pingOk := true, slave := some { state := .running, masterHost := "a" } })],
+    active := ["b"], sw := { from_ := "b" }, oldMaster := "a", ro := fun _ => true, io := fun _ => true,
+    positions := some [⟨"b", [(⟨"00000000-0000-0000-0000-000000000001", ""⟩, [⟨5, 3⟩])], 0, 0⟩],
+    cs2 := [], repoint := fun _ => true }
+def cxCfg : Cfg := ⟨false, 1, false, 0, 60⟩
+
+theorem splitbrain_aborts_counterexample :
+    ∃ ps, cxIn.positions = some ps ∧ findMostRecent ps = .splitBrain ∧
+      Step.positions true ∈ performSwitchover cxCfg cxIn ∧
+      (performSwitchover cxCfg cxIn).getLast? = some (.fail "no suitable nodes to switch from") := by
+  refine ⟨_, rfl, ?_, by decide +kernel, by decide +kernel⟩
+  rfl
+
 /-! #### order -/
 
 def segA (cfg : Cfg) (i : In) : List Step :=
